@@ -134,7 +134,7 @@ def run_job(unit, job, cfile, scratch, canary=False):
     b_gb = os.path.join(scratch, safe + ".b.gb")
     res = {"unit": unit["id"], "job": job["name"], "canary": canary, "kind": job.get("kind", "proved"),
            "bound": job.get("bound"), "status": "undecided", "props": [], "failed": [], "secs": 0.0, "detail": "",
-           "backend": job.get("solver") or "kissat"}
+           "backend": "cbmc built-in SAT (minisat2)" if canary else (job.get("solver") or "kissat")}
     timeout = job.get("timeout", 120)
     defs = ["-D%s=%s" % (k, v) for k, v in job.get("defines", {}).items()]
     if canary:
@@ -157,7 +157,7 @@ def run_job(unit, job, cfile, scratch, canary=False):
         ctext = open(cfile).read()
         for r in job.get("replace", []):
             # a callee that is declared but no longer called anywhere (e.g. the call was edited away in /repo) cannot be replaced
-            if len(re.findall(r"\b%s\s*\(" % re.escape(r), ctext)) < 2:
+            if len(re.findall(r"\b%s\b" % re.escape(r), ctext)) < 2:
                 continue
             cmd += ["--replace-call-with-contract", r]
         if job.get("loops"):
@@ -182,7 +182,9 @@ def run_job(unit, job, cfile, scratch, canary=False):
     if job.get("object_bits"):
         cmd += ["--object-bits", str(job["object_bits"])]
     solver = job.get("solver", "kissat")
-    if solver == "kissat":
+    if canary:
+        pass   # reachability canaries are satisfiable instances: the built-in solver finds a model fastest
+    elif solver == "kissat":
         cmd += ["--external-sat-solver", "kissat"]
     elif solver == "cvc5":
         cmd += ["--cvc5"]
